@@ -13,7 +13,7 @@ PROPS = {
     "C02": {
         "level": "exploration",
         "quick": [("A", 30000)],
-        "thorough": [("A", 800000), ("C", 200000), ("D", 60000)],
+        "thorough": [("A", 800000), ("C", 200000), ("D", 60000), ("E", 32)],
         "probes": ["leak_iter", "leak_drain", "leak_extract", "leak_entry", "leak_into_iter", "early_drop_drain", "early_drop_extract", "early_drop_into_iter", "small_table", "multi_group_table", "rehash_in_place", "serde_lying_hint"],
         "rule": "one evaluation = one simulated run of mixed operations in which iterators, drains, extract_ifs and entries are advanced k steps and then dropped or mem::forget-ten (cancellation faults F9/F10), with lying size hints (F13), colliding hash plans, exact-alignment-only allocator placement, element layouts 8..208 bytes and align up to 64; oracles: ledger (double drop, dead reference), red-zone canaries, quarantine poison, layout match, dump invariants I1-I4 and allocator balance after every call; non-trivial/distinct as for C01",
     },
@@ -27,14 +27,14 @@ PROPS = {
     "C04": {
         "level": "fault_enumeration",
         "quick": [("A", 8000)],
-        "thorough": [("A", 80000), ("C", 20000), ("D", 8000)],
+        "thorough": [("A", 80000), ("C", 20000), ("D", 8000), ("E", 16)],
         "probes": ["panic_in_resize", "panic_in_rehash_in_place", "panic_in_clone", "panic_in_drop", "panic_in_pred", "panic_in_eq", "panic_in_hash_lookup"],
         "rule": "one evaluation = one execution of a scenario; each seeded scenario is first executed fault-free to count the callback invocations of every class inside every operation, then re-executed with the k-th invocation of one class panicking inside one target operation, for every k (thorough) or k in {1, last, 2 random} (quick); non-trivial = a fault fired or a structural event occurred; distinct = distinct signatures (operation kinds + structural events + fired fault class), k-minimum-values sketch",
     },
     "C05": {
         "level": "exploration",
         "quick": [("A", 20000)],
-        "thorough": [("A", 500000), ("C", 50000), ("D", 30000)],
+        "thorough": [("A", 500000), ("C", 50000), ("D", 30000), ("E", 32)],
         "probes": ["byz_hash_answer", "byz_eq_answer", "rehash_in_place", "resize_up", "tombstone_created"],
         "rule": "one evaluation = one simulated run under a byzantine hash plan (fresh value per call / periodic flips / epoch changes) and/or a byzantine equality (random, always true, always false, asymmetric) for the whole run; only the safety subset of the oracles is active (ledger, canaries, invariants I1-I4, len()==iter().count(), per-operation callback cap as divergence verdict, everything dropped exactly once at the end); non-trivial/distinct as for C01",
     },
@@ -125,8 +125,11 @@ PROPS = {
     },
     "C19": {
         "level": "exploration",
+        # rayon-core's crossbeam-epoch is rejected by Stacked Borrows as soon as the (one-thread) pool is built;
+        # that is outside hashbrown. Leaks are the ledger's job: the global pool outlives main.
+        "miriflags": "-Zmiri-tree-borrows -Zmiri-ignore-leaks",
         "quick": [("A", 30000)],
-        "thorough": [("A", 600000), ("C", 60000), ("D", 30000)],
+        "thorough": [("A", 600000), ("C", 60000), ("D", 30000), ("E", 32)],
         "probes": ["par_split", "par_steal", "par_depth3", "par_early_stop", "par_consumer_panic", "multi_group_table", "small_table"],
         "rule": "one evaluation = one simulated run in which the rayon adaptors of a map, set or table reached by a history (tables of 4..4096 buckets, any occupancy) are driven through the simulator-owned bridge_unindexed under a recorded decision list: split-or-fold at every node (free form, or a rayon-like split budget for pool sizes 1..64 with budget reset on a 'steal'), the order in which pending subtrees run, consumers that take everything, stop after k items (take_any, find_any, any, all) or panic at item k; oracle: delivered multiset = stored multiset (or a sub-multiset without duplicates of exactly the requested size), par_iter_mut visits each element once, par_drain leaves an empty usable collection holding the same block, undelivered elements dropped exactly once also under a consumer panic, parallel set operations / predicates / par_eq / par_extend / from_par_iter equal their sequential counterparts; distinct = distinct signatures incl. the split-tree shape digest",
     },
